@@ -936,6 +936,182 @@ static size_t q_index(vf_rng *r, size_t n, int *cls)
     }
 }
 
+/* ---- caller idioms that RE-USE A PULLED ELEMENT (seeded change C05-J: a_que_new_ zero-fills every node it hands out)
+ * A pulled element is not freed: the node goes to the queue's own pool and the next push on that queue hands it out again.
+ * The pointer returned by pull/remove is therefore the caller's only copy of the element, and callers use it
+ *   (key)    p = pull(q); p->key = NEW (or not); d = a_que_push_sort(q, p, cmp); if (d != p) memcpy(d, p, siz);
+ *            p = pull(q); p->key = NEW; d = a_que_push_fore/back(q); if (d != p) memcpy(d, p, siz); a_que_sort_fore/back(q, cmp);
+ *   (source) p = pull(q); d = a_que_push_fore / push_back / insert(q, i); if (d != p) memcpy(d, p, siz);      (rotate, move)
+ * and the same with the push going to the OTHER queue (equal element size): the key / copy source then lives in the pool of
+ * the queue it was pulled from. Oracle = the abstract sequence: the element leaves its position and re-appears at the position
+ * the push prescribes (sorted insertion: any position that keeps the sequence sorted, the tie rule of the push_sort operation of
+ * the histories) holding exactly the bytes the caller left in *p; everything else is unchanged (que_check after the call).
+ * No library call is made on either queue between the pull and the push. Judged besides the model comparison:
+ *   recycled-key/contents, recycled-source/contents   the element at d after the caller's conditional copy
+ *   recycled-key/position                             sorted insertion compared against a key that was wiped/changed
+ *   .../pulled-element-changed                        d != p: *p no longer holds the caller's bytes when the copy is made. On the
+ *       unchanged library d != p happens only in the two-queue form (the pool is LIFO: the same queue hands the pulled node
+ *       straight back), where no call at all was made on the queue that owns p. The stronger reading "a pooled element keeps
+ *       its bytes across later pushes that return OTHER nodes" is NOT judged: neither que.h nor the property promises anything
+ *       about the bytes of an element that is no longer enqueued beyond the pointer pull returns being usable.
+ * The comparator monitor treats p as the key (right operand only). */
+static int que_recycle(vf_rng *r, int ks, int as_key)
+{
+    int ok = 1, cls = 0, cls2 = 0, kd = ks, how, mod, variant;
+    qmodel *ms = &Q[ks], *md = ms;
+    char const *role = as_key ? "recycled-key" : "recycled-source";
+    char clause[64];
+    unsigned char el[QSZ];
+    unsigned char *p, *d;
+    size_t at, idx = 0, siz = ms->siz;
+    if (!ms->n) { return 1; }
+    if (vf_chance(r, 1, 3) && Q[1 - ks].siz == siz && Q[1 - ks].n + 1 < QMAX)
+    {
+        kd = 1 - ks;
+        md = &Q[kd];
+    }
+    if (as_key && !qm_sorted(md)) /* as for push_sort: sorted insertion is defined on a sorted queue; otherwise rotate / move */
+    {
+        as_key = 0;
+        role = "recycled-source";
+    }
+    how = (int)vf_below(r, 3);
+    mod = (int)vf_below(r, 4);
+    variant = (int)vf_below(r, 3);
+    q_siz_cb = siz;
+    /* ---- the pull, judged like the pulls of the histories */
+    if (how == 0) { opname = "pull_fore"; vf_log("que %d pull_fore (num %zu), the returned pointer is kept", ks, ms->n); p = (unsigned char *)qx_pull_fore(ms->q); at = 0; }
+    else if (how == 1) { opname = "pull_back"; vf_log("que %d pull_back (num %zu), the returned pointer is kept", ks, ms->n); p = (unsigned char *)qx_pull_back(ms->q); at = ms->n - 1; }
+    else
+    {
+        opname = "remove";
+        idx = q_index(r, ms->n, &cls);
+        vf_log("que %d remove idx=%zu (num %zu), the returned pointer is kept", ks, idx, ms->n);
+        p = (unsigned char *)qx_remove(ms->q, idx);
+        at = idx < ms->n ? idx : ms->n - 1;
+    }
+    VF_COUNT("que-pull-returns-the-element");
+    if (p != ms->addr[at]) { FAIL("wrong-element-returned", "returned %p, element %zu lives at %p", (void *)p, at, ms->addr[at]); return 0; }
+    if (memcmp(p, ms->pay[at], siz) != 0) { FAIL("returned-element-not-intact", "payload changed"); return 0; }
+    memcpy(el, ms->pay[at], QSZ);
+    qm_remove(ms, at);
+    xform = NULL;
+    /* ---- the caller works on the element in place */
+    switch (mod)
+    {
+    case 0: break;
+    case 1: el[0] = (unsigned char)vf_below(r, 20); break;
+    case 2: el[0] = (unsigned char)(vf_below(r, 2) * 255); break;
+    default: q_mk(r, md, el, -1); break;
+    }
+    if (mod)
+    {
+        vf_log("  the caller rewrites the pulled element in place (%s, key byte %u)", mod == 3 ? "all bytes" : "key byte", el[0]);
+        memcpy(p, el, siz);
+    }
+    /* ---- the push that re-uses it */
+    ++vf.evals;
+    if (as_key)
+    {
+        if (variant == 0)
+        {
+            opname = "push_sort";
+            vf_log("que %d push_sort with key = the pulled pointer (key byte %u, num %zu); then if (d != p) memcpy(d, p, %zu)", kd, el[0], md->n, siz);
+            cmp_arm(p, NULL);
+            d = (unsigned char *)qx_push_sort(md->q, p, q_cmp);
+        }
+        else if (variant == 1)
+        {
+            opname = "sort_fore";
+            vf_log("que %d push_fore, if (d != p) memcpy(d, p, %zu) from the pulled pointer (key byte %u), sort_fore (num %zu)", kd, siz, el[0], md->n);
+            d = (unsigned char *)qx_push_fore(md->q);
+        }
+        else
+        {
+            opname = "sort_back";
+            vf_log("que %d push_back, if (d != p) memcpy(d, p, %zu) from the pulled pointer (key byte %u), sort_back (num %zu)", kd, siz, el[0], md->n);
+            d = (unsigned char *)qx_push_back(md->q);
+        }
+        if (variant) { role = "recycled-source"; }
+    }
+    else
+    {
+        if (variant == 0) { opname = "push_fore"; idx = 0; vf_log("que %d push_fore (num %zu); then if (d != p) memcpy(d, p, %zu) from the pulled pointer", kd, md->n, siz); d = (unsigned char *)qx_push_fore(md->q); }
+        else if (variant == 1) { opname = "push_back"; idx = md->n; vf_log("que %d push_back (num %zu); then if (d != p) memcpy(d, p, %zu) from the pulled pointer", kd, md->n, siz); d = (unsigned char *)qx_push_back(md->q); }
+        else
+        {
+            opname = "insert";
+            idx = q_index(r, md->n, &cls2);
+            vf_log("que %d insert idx=%zu (num %zu); then if (d != p) memcpy(d, p, %zu) from the pulled pointer", kd, idx, md->n, siz);
+            d = (unsigned char *)qx_insert(md->q, idx);
+            if (idx > md->n) { idx = md->n; }
+        }
+    }
+    if (!d) { FAIL("unexpected-null", "push returned null"); return 0; }
+    VF_COUNT("que-recycled-node-not-enqueued");
+    if (q_enqueued(d)) { FAIL("handed-out-node-still-enqueued", "push returned %p which is the address of an enqueued element", (void *)d); return 0; }
+    if (as_key && variant == 0)
+    {
+        VF_COUNT("que-comparator-receives-elements-only");
+        if (cmp_foreign) { FAIL("comparator-received-non-element", "%d comparator calls with a pointer that is neither an enqueued element nor the key (the pulled element), or with the key on the left", cmp_foreign); return 0; }
+    }
+    if (as_key && variant == 0) { if (kd == ks) { VF_COUNT("que-recycled-node-as-push_sort-key"); } else { VF_COUNT("que-foreign-pooled-node-as-push_sort-key"); } }
+    else if (as_key) { if (kd == ks) { VF_COUNT("que-recycled-node-pushed-and-sorted"); } else { VF_COUNT("que-foreign-pooled-node-as-copy-source"); } }
+    else { if (kd == ks) { VF_COUNT("que-recycled-node-as-copy-source"); } else { VF_COUNT("que-foreign-pooled-node-as-copy-source"); } }
+    /* ---- if (d != p) memcpy(d, p, siz) */
+    if (d != p)
+    {
+        VF_COUNT("que-pulled-element-intact-after-push-of-another-node");
+        if (memcmp(p, el, siz) != 0)
+        {
+            snprintf(clause, sizeof(clause), "%s/pulled-element-changed", role);
+            FAIL(clause, "que %d handed out %p, not the pulled node %p (que %d), and the pulled element no longer holds the caller's bytes", kd, (void *)d, (void *)p, ks);
+            return 0;
+        }
+        memcpy(d, p, siz);
+    }
+    else { VF_COUNT("que-pulled-node-handed-back-by-the-next-push"); }
+    if (memcmp(d, el, siz) != 0)
+    {
+        size_t b = 0;
+        while (b < siz && d[b] == el[b]) { ++b; }
+        snprintf(clause, sizeof(clause), "%s/contents", role);
+        FAIL(clause, "the re-inserted element (%s the pulled node) differs from what the caller left in it at byte %zu of %zu: %u, expected %u", d == p ? "in place," : "copied from", b, siz, d[b], el[b]);
+        return 0;
+    }
+    if (as_key)
+    {
+        a_list *h = &md->q->head_, *it;
+        size_t pos = 0, found = SIZE_MAX;
+        if (variant)
+        {
+            xform = NULL;
+            cmp_arm(NULL, d);
+            if (variant == 1) { a_que_sort_fore(md->q, q_cmp); }
+            else { a_que_sort_back(md->q, q_cmp); }
+            VF_COUNT("que-comparator-receives-elements-only");
+            if (cmp_foreign) { FAIL("comparator-received-non-element", "%d comparator calls with a pointer that is neither an enqueued element nor the pushed element", cmp_foreign); return 0; }
+        }
+        for (it = h->next; it != h && pos <= md->n; it = it->next, ++pos)
+        {
+            if ((unsigned char *)(it + 1) == d) { found = pos; break; }
+        }
+        VF_COUNT("que-sorted-insert-keeps-order-and-elements");
+        if (found == SIZE_MAX) { FAIL("new-element-not-in-ring", "the pushed node is not linked into the queue"); return 0; }
+        qm_insert(md, found, el, d);
+        if (!qm_sorted(md))
+        {
+            snprintf(clause, sizeof(clause), "%s/position", role);
+            FAIL(clause, "the element with key byte %u was re-inserted at position %zu of %zu: the sequence is no longer sorted", el[0], found, md->n);
+            return 0;
+        }
+    }
+    else { qm_insert(md, idx, el, d); }
+    cell3(as_key ? "recycle-as-key" : "recycle-as-source", how * 4 + mod, (kd != ks) * 3 + variant, as_key ? emp(md->n - 1) : cls2);
+    (void)cls;
+    return ok;
+}
+
 static void que_case(uint64_t c, vf_rng *r)
 {
     static size_t const sizes[] = {0, 1, 4, 8, 24};
@@ -968,11 +1144,11 @@ static void que_case(uint64_t c, vf_rng *r)
     }
     if (vf_want_sample() && c % 9 == 2)
     {
-        vf_sample("queue history %" PRIu64 ": two a_que of element size %zu, %d ops from {push/pull both ends, insert, remove (indices 0, mid, last, num, num+1, SIZE_MAX), push_sort, push+sort_fore, push+sort_back, swap_ of two non-adjacent elements, whole-queue a_que_swap, drop, setz, foreach}; ring, num, fore/back/at(+-i), payload bytes and element addresses compared with the model after every call", c, siz, nops);
+        vf_sample("queue history %" PRIu64 ": two a_que of element size %zu, %d ops from {push/pull both ends, insert, remove (indices 0, mid, last, num, num+1, SIZE_MAX), push_sort, push+sort_fore, push+sort_back, swap_ of two non-adjacent elements, whole-queue a_que_swap, drop, setz, foreach, pull + push_sort(key = the pulled pointer) / push_fore / push_back / insert + if (d != p) memcpy(d, p, siz) on the same or the other queue}; ring, num, fore/back/at(+-i), payload bytes and element addresses compared with the model after every call", c, siz, nops);
     }
     for (int i = 0; i < nops && alive; ++i)
     {
-        int op = (int)vf_below(r, 22), k = (int)vf_below(r, 2), ok = 1, cls = 0;
+        int op = (int)vf_below(r, 25), k = (int)vf_below(r, 2), ok = 1, cls = 0;
         qmodel *m = &Q[k];
         unsigned char el[QSZ];
         void *p;
@@ -1167,6 +1343,11 @@ static void que_case(uint64_t c, vf_rng *r)
             m->siz = nz ? nz : 1;
             break;
         }
+        case 22: case 23: case 24:
+            /* caller idioms on a pulled element: 22 re-prioritise (the pulled element is the key of the sorted insertion),
+               23 rotate / move (it is the source of the caller's copy), 24 either */
+            alive = que_recycle(r, k, op == 24 ? (int)vf_below(r, 2) : op == 22);
+            break;
         case 21:
             /* SURFACE: destruction followed by construction on the same storage (a_que_dtor + a_que_ctor) resp. a_que_die +
              * a_que_new: the queue must be usable again - the rest of the history is the judge */
@@ -2266,7 +2447,10 @@ static int que_forms(void)
  * the only one). On the one-element queue: sort_fore/sort_back (unchanged), at(0) == at(-1) == fore == back == the element,
  * everything else null, push_sort of a key below / equal / above (position judged) and removal of the new element again,
  * pull_fore / pull_back / remove(0) / remove(1) / remove(SIZE_MAX) each returning the element and emptying the queue
- * (refilled by push_fore / push_back / insert(0) / insert(SIZE_MAX) in turn), a_que_drop with destructor (exactly one call,
+ * (refilled by push_fore / push_back / insert(0) / insert(SIZE_MAX) in turn), the caller idioms of que_recycle on the only
+ * element (pull_fore + push_back + copy-if-another-node; pull_back + key rewritten in place + push_sort with key = the pulled
+ * pointer: keys .../recycled-source/contents/one-element-queue, .../recycled-key/contents/one-element-queue),
+ * a_que_drop with destructor (exactly one call,
  * on the element). The complete state comparison (que_check: ring, num, fore/back, at(+-i), bytes, addresses) follows
  * every call. Keys: "que_<api>/<clause>/empty-queue" and ".../one-element-queue". */
 static int qe_cmp(void)
@@ -2401,6 +2585,43 @@ static int que_edges(int k)
         }
         if (!qe_one(k, p, el)) { return 0; }
     }
+    /* the caller idioms of que_recycle on the only element: rotate (pull_fore, push_back, copy if another node came back) and
+       re-prioritise (pull_back, new key written in place, push_sort with key = the pulled pointer into the now empty queue) */
+    for (int v = 0; v < 2; ++v)
+    {
+        unsigned char *pp, *d;
+        memcpy(el, m->pay[0], QSZ);
+        if (v == 0) { opname = "pull_fore"; vf_log("que %d pull_fore (num 1), the returned pointer is kept", k); pp = (unsigned char *)a_que_pull_fore(q); }
+        else { opname = "pull_back"; vf_log("que %d pull_back (num 1), the returned pointer is kept", k); pp = (unsigned char *)a_que_pull_back(q); }
+        if (pp != m->addr[0]) { FAIL("wrong-element-returned", "returned %p, the only element lives at %p", (void *)pp, m->addr[0]); return 0; }
+        if (memcmp(pp, m->pay[0], m->siz) != 0) { FAIL("returned-element-not-intact", "payload changed"); return 0; }
+        qm_remove(m, 0);
+        if (v == 0)
+        {
+            opname = "push_back"; vf_log("que %d push_back (num 0); then if (d != p) memcpy(d, p, %zu) from the pulled pointer", k, m->siz);
+            d = (unsigned char *)a_que_push_back(q);
+        }
+        else
+        {
+            el[0] = (unsigned char)(1 + vf_below(&XR, 254));
+            pp[0] = el[0];
+            opname = "push_sort"; vf_log("que %d push_sort with key = the pulled pointer (key byte %u rewritten in place, num 0); then if (d != p) memcpy(d, p, %zu)", k, el[0], m->siz);
+            cmp_arm(pp, NULL);
+            d = (unsigned char *)a_que_push_sort(q, pp, q_cmp);
+            if (cmp_foreign) { FAIL("comparator-received-non-element", "%d comparator calls although the queue was empty", cmp_foreign); return 0; }
+        }
+        if (!d) { FAIL("unexpected-null", "push returned null"); return 0; }
+        if (d != pp)
+        {
+            if (memcmp(pp, el, m->siz) != 0) { FAIL(v ? "recycled-key/pulled-element-changed" : "recycled-source/pulled-element-changed", "the push returned another node and the pulled element no longer holds the caller's bytes"); return 0; }
+            memcpy(d, pp, m->siz);
+        }
+        if (v == 0) { VF_COUNT("que-recycled-node-as-copy-source"); }
+        else { VF_COUNT("que-recycled-node-as-push_sort-key"); }
+        if (memcmp(d, el, m->siz) != 0) { FAIL(v ? "recycled-key/contents" : "recycled-source/contents", "the re-inserted only element (%s the pulled node) differs from what the caller left in it", d == pp ? "in place," : "copied from"); return 0; }
+        qm_insert(m, 0, el, d);
+        if (!que_check()) { return 0; }
+    }
     opname = "drop"; vf_log("que %d drop with destructor (num 1)", k);
     dt_begin(k);
     rc = a_que_drop(q, q_dtor);
@@ -2409,7 +2630,7 @@ static int que_edges(int k)
     m->n = 0;
     if (!que_check()) { return 0; }
     xform = NULL;
-    vf.evals += 42; /* API calls judged above */
+    vf.evals += 46; /* API calls judged above */
     return ok;
 }
 /* the queue is emptied by pulls (every node goes to the recycling pool), each judged like the pulls of the history */
